@@ -744,8 +744,8 @@ fn main() {
         rep.finish();
         return;
     }
-    let n1 = a.pick(20_000u64, 2_000_000);
-    let n2 = a.pick(3_000u64, 200_000);
+    let n1 = a.pick(150_000u64, 2_000_000);
+    let n2 = a.pick(20_000u64, 200_000);
     let threads = a.pick(4usize, 12);
     std::thread::scope(|sc| {
         for shard in 0..threads {
